@@ -681,7 +681,7 @@ func semDiscipline(c *an.Ctx, fn *ssa.Function, name string, isRelease func(*ssa
 	}
 	res := flow.Run()
 	if res.Blowup {
-		c.Undecided("semaphore discipline of " + name + ": state space too large")
+		c.Undecided("%s", "semaphore discipline of " + name + ": state space too large")
 		return nil
 	}
 	nHeld := 0
